@@ -1229,22 +1229,26 @@ Theorem dec_overflows_meaning ints frac ex :
 Proof.
   intros Hd H m e. unfold dec_overflows in H. fold m e in H.
   pose proof (dec_val_bounds _ Hd 0 ltac:(lia)) as [Hm0 Hm1]. fold m in Hm0, Hm1.
-  rewrite len_app in Hm1. cbn in Hm0.
+  rewrite len_app in Hm1. rewrite Z.mul_0_l in Hm0. rewrite Z.add_0_l, Z.mul_1_l in Hm1.
   assert (HT : 10 ^ 308 < f64_overflow_threshold) by (vm_compute; reflexivity).
-  assert (HT0 : 0 < f64_overflow_threshold) by (vm_compute; reflexivity).
+  set (T := f64_overflow_threshold) in *. set (P := 10 ^ 308) in *.
+  assert (HP : forall k, k <= 308 -> 10 ^ k <= P) by (intros k Hk; apply Z.pow_le_mono_r; lia).
+  assert (HP2 : forall k, 0 <= k -> 10 ^ (308 + k) = P * 10 ^ k) by (intros k Hk; apply Z.pow_add_r; lia).
+  assert (HP0 : 0 < P) by (apply Z.pow_pos_nonneg; lia).
+  clearbody T P.
+  pose proof (len_nonneg ints) as Li. pose proof (len_nonneg frac) as Lf.
   destruct (m =? 0) eqn:E0.
   - apply Z.eqb_eq in E0. rewrite E0. split; intro He.
     + lia.
     + assert (0 < 10 ^ (- e)) by (apply Z.pow_pos_nonneg; lia). nia.
   - destruct (400 <? e); [discriminate|].
     destruct (len ints + len frac + e <=? 308) eqn:E1.
-    + apply Z.leb_le in E1. pose proof (len_nonneg ints). pose proof (len_nonneg frac).
-      set (nd := len ints + len frac) in *. split; intro He.
-      * assert (m * 10 ^ e < 10 ^ nd * 10 ^ e) by (assert (0 < 10 ^ e) by (apply Z.pow_pos_nonneg; lia); nia).
-        rewrite <- Z.pow_add_r in H2 by lia.
-        assert (10 ^ (nd + e) <= 10 ^ 308) by (apply Z.pow_le_mono_r; lia). lia.
-      * assert (10 ^ nd <= 10 ^ (308 + - e)) by (apply Z.pow_le_mono_r; lia).
-        rewrite Z.pow_add_r in H2 by lia.
+    + apply Z.leb_le in E1. set (nd := len ints + len frac) in *. split; intro He.
+      * assert (0 < 10 ^ e) by (apply Z.pow_pos_nonneg; lia).
+        assert (A : m * 10 ^ e < 10 ^ nd * 10 ^ e) by nia.
+        rewrite <- Z.pow_add_r in A by lia. pose proof (HP (nd + e) E1). lia.
+      * assert (B : 10 ^ nd <= 10 ^ (308 + - e)) by (apply Z.pow_le_mono_r; lia).
+        rewrite (HP2 (- e)) in B by lia.
         assert (0 < 10 ^ (- e)) by (apply Z.pow_pos_nonneg; lia). nia.
     + destruct (0 <=? e) eqn:E2.
       * apply Z.leb_le in E2. apply Z.leb_gt in H. split; intro He; lia.
